@@ -98,8 +98,8 @@ def concrete_text(text, m):
     return ''.join(out), out
 
 
-def merged_occs(results):
-    v = H.merged_result(results)
+def merged_occs(results, cov=None):
+    v = merged(cov if cov is not None else [], results)
     if not isinstance(v, Seq):
         raise Inconclusive('not a sequence of occurrences')
     return v
